@@ -2043,6 +2043,13 @@ func (c *Cache) additionalAnswer(ctx context.Context, msg *dns.Msg) *dns.Msg {
 			}
 			return out
 		}
+		if err == nil && respCname != nil && msg.AuthenticatedData && !respCname.AuthenticatedData {
+			// The composed answer is only as authentic as its weakest leg,
+			// also when that leg brought nothing to append: a target that
+			// came back empty and unauthenticated (an unsigned zone, a name
+			// in an opt-out span) says nothing the alias's AD could cover.
+			msg.AuthenticatedData = false
+		}
 		if err == nil && (len(respCname.Answer) > 0 || len(respCname.Ns) > 0) {
 			target, child = searchAdditionalAnswer(msg, respCname)
 			// The sub-query's records are now part of the outer answer, so
